@@ -324,7 +324,9 @@ def check_variable(ctx, increasing=True):
         else:
             ref, facts, parts = variable_reference(Fraction(999, 1000))
             _, fns_ = alg.leaf_syms(outv.poly)
-            if 'searchsorted' in fns_ and not increasing:
+            raw_search = alg.contains_atom(outv.poly, lambda a_: a_[0] == 'fn' and a_[1] == 'searchsorted' and len(a_) >= 3 and a_[2][0] == 'B' and
+                                           Poly.from_key(a_[2][2]).is_monomial() and not alg.leaf_syms(Poly.from_key(a_[2][2]))[1] and 'cap' in alg.leaf_syms(Poly.from_key(a_[2][2]))[0])
+            if 'searchsorted' in fns_ and not increasing and raw_search:
                 # a hand-written interpolation that searches the aperture table as it is stored, where nothing promises the order it is stored in: it is compared
                 # with the library's interpolation (which sorts the table itself) written out the same way; what is left is a real difference for tables
                 # stored in another order
